@@ -589,8 +589,8 @@ func (g *gen) scenarioDeleteCrash(idx int) {
 		o2 := oc.snapshot()
 		g.dpReindex(o2, []string{"fresh", "over"}[rnd.Intn(2)])
 		g.op("dp.restore 1")
-		if m%2 == 0 || r.Thorough() {
-			g.continueAfterCrash(oc, x, rnd.Chance(50))
+		if m%2 == 0 || m == 1 || r.Thorough() {
+			g.continueAfterCrash(oc, x, m == 1 || rnd.Chance(50))
 		}
 	}
 	if idx == 0 {
